@@ -224,14 +224,18 @@ class PluginResponse(Custom):
 
     def specs(self, rng, n):
         out = [dict(message_id=0, successful=False, data=None), dict(message_id=2 ** 31 - 1, successful=True, data=b''),
-               dict(message_id=5, successful=True, data=bytes(range(256)))]
+               dict(message_id=5, successful=True, data=bytes(range(256))),
+               # 'successful' left unassigned: it is implied by the presence of data (None = unsuccessful; b'' is data)
+               dict(message_id=6, successful=True, data=b'', implied=True), dict(message_id=7, successful=False, data=None, implied=True),
+               dict(message_id=8, successful=True, data=b'\x00', implied=True)]
         while len(out) < n:
             s = rng.random() < 0.6
             out.append(dict(message_id=rng.randrange(2 ** 31), successful=s, data=bytes(rng.randrange(256) for _ in range(rng.randrange(0, 60))) if s else None))
         return out[:n]
 
     def build(self, cls, ctx, spec, flags):
-        return cls(context=ctx, **spec)
+        kw = {k: v for k, v in spec.items() if k != 'implied' and not (k == 'successful' and spec.get('implied'))}
+        return cls(context=ctx, **kw)
 
     def values(self, spec, flags):
         return [[1, spec['message_id']], [0, int(spec['successful'])]] + ([[3, list(spec['data'])]] if spec['successful'] else [])
@@ -571,9 +575,14 @@ def run(chk, only=None):
         if d > 0 and rng.random() < 0.3:
             return ['Array', rng.choice([['VarInt'], ['Short'], ['UnsignedByte'], ['Integer'], ['Byte']]), rty(d - 1)]
         return rng.choice(simple)
+    arr = lambda lt, et: ['Array', [lt], et]
+    fixed_defs = [[['a', arr('VarInt', arr('VarInt', ['Position']))]], [['a', arr('Short', ['Position'])], ['b', ['VarInt']]],
+                  [['a', arr('VarInt', arr('Byte', arr('VarInt', ['Position'])))]], [['p', ['Position']], ['a', arr('UnsignedByte', arr('VarInt', ['String']))]]]
     for n in range(300 if th else 60):
         nf = rng.randrange(0, 7)
         d = [['f%d' % j, rty(2)] for j in range(nf)]
+        if n < len(fixed_defs):
+            d = fixed_defs[n]       # nested arrays whose leaves need the connection's context: defined on every run
         if rng.random() < 0.3:
             d.append(['tail', ['TrailingByteArray']])
         pv = rng.choice(t['supported_protocols'])
@@ -765,7 +774,7 @@ def run_custom(chk, C, t, pos, sup, cc_cache, kcoll):
     from minecraft.networking.connection import ConnectionContext
     rng, th = chk.rng, chk.tier == 'thorough'
     cls = cls_of(C.name)
-    specs = C.specs(rng, 12 if th else 6)
+    specs = C.specs(rng, 14 if th else 8)
     probes = specs[:3]
     combos = C.combos()
     # which versions register it
@@ -882,7 +891,7 @@ def impl_roundtrip(C, cls, ctx, a, fl):
     if rb.pos != len(bi):
         return 'read consumed %d of %d payload bytes' % (rb.pos, len(bi))
     got = norm(C.fields_of(q, fl))
-    exp = norm({k: v for k, v in a.items()})
+    exp = norm({k: v for k, v in a.items() if k != 'implied'})
     for k in exp:
         if k not in got:
             if exp[k] is None:
